@@ -137,3 +137,76 @@ example : lookupArg args₀ 3 = some ⟨"Gaussian", 0, 10, -4, 8⟩ := by rfl
 example : lookupArg args₀ 7 = some ⟨"Gaussian", 0, 100, 6, 12⟩ := by rfl
 
 end AF.C12
+
+namespace AF.C12
+open AF
+
+theorem mem_of_indexOf?_some : ∀ (l : List Nat) (i c : Nat), indexOf? l i = some c → i ∈ l
+  | [], _, _, h => by simp [indexOf?] at h
+  | y :: ys, i, c, h => by
+    unfold indexOf? at h
+    by_cases hy : y = i
+    · simp [hy]
+    · have : (y == i) = false := by simpa using hy
+      simp only [this] at h
+      cases h' : indexOf? ys i with
+      | none => simp [h'] at h
+      | some d => exact List.mem_cons_of_mem _ (mem_of_indexOf?_some ys i d h')
+
+/-- position in a strictly increasing list is strictly increasing -/
+theorem indexOf?_mono : ∀ (l : List Nat), l.Pairwise (· < ·) → ∀ (i j a b : Nat), i < j →
+    indexOf? l i = some a → indexOf? l j = some b → a < b
+  | [], _, _, _, _, _, _, h, _ => by simp [indexOf?] at h
+  | x :: xs, hs, i, j, a, b, hij, hi, hj => by
+    have hx := List.pairwise_cons.mp hs
+    unfold indexOf? at hi hj
+    by_cases hxi : x = i
+    · have h1 : (x == i) = true := by simpa using hxi
+      simp only [h1, if_true, Option.some.injEq] at hi
+      subst hi
+      have hxj : ¬ x = j := by omega
+      have h2 : (x == j) = false := by simpa using hxj
+      simp only [h2] at hj
+      cases h : indexOf? xs j with
+      | none => simp [h] at hj
+      | some c => simp [h] at hj; omega
+    · have h1 : (x == i) = false := by simpa using hxi
+      simp only [h1] at hi
+      cases h : indexOf? xs i with
+      | none => simp [h] at hi
+      | some c =>
+        simp only [h, Option.map_some, Option.some.injEq, Bool.false_eq_true, if_false] at hi
+        -- i is in xs, hence x < i < j, so j ≠ x
+        have hmem : i ∈ xs := mem_of_indexOf?_some xs i c h
+        have hxlt : x < i := hx.1 i hmem
+        have hxj : ¬ x = j := by omega
+        have h2 : (x == j) = false := by simpa using hxj
+        simp only [h2] at hj
+        cases h' : indexOf? xs j with
+        | none => simp [h'] at hj
+        | some d =>
+          simp only [h', Option.map_some, Option.some.injEq, Bool.false_eq_true, if_false] at hj
+          have := indexOf?_mono xs hx.2 i j c d hij h h'
+          omega
+
+/-- the fresh ids `with_limits` hands out are strictly increasing in the old ids -/
+theorem freshSigma_strictMono {V' : Type} (t : Node V') (base : Nat) (i j : Nat)
+    (hi : i ∈ uniqueIds t) (hj : j ∈ uniqueIds t) (hij : i < j) :
+    freshSigma t base i < freshSigma t base j := by
+  obtain ⟨a, ha, _⟩ := indexOf?_some_of_mem (uniqueIds t) i hi
+  obtain ⟨b, hb, _⟩ := indexOf?_some_of_mem (uniqueIds t) j hj
+  have := indexOf?_mono (uniqueIds t) (sorted_sortDedup _) i j a b hij ha hb
+  simp only [freshSigma, ha, hb]
+  omega
+
+/-- **`with_limits` keeps the parameter order**: the new model's parameters, in their own id order,
+are the images of the old parameters in the old order -/
+theorem with_limits_order_preserved {V' : Type} (t : Node V') (base : Nat) :
+    uniqueIds (renameIds (freshSigma t base) t) = (uniqueIds t).map (freshSigma t base) := by
+  apply order_preserved
+  intro i hi j hj hij
+  have hi' : i ∈ uniqueIds t := by simpa [uniqueIds, mem_sortDedup] using hi
+  have hj' : j ∈ uniqueIds t := by simpa [uniqueIds, mem_sortDedup] using hj
+  exact freshSigma_strictMono t base i j hi' hj' hij
+
+end AF.C12
